@@ -2,9 +2,32 @@
    lookup table of (preimage, digest) pairs computed by the harness with
    SHA3-256.  A preimage that is not in the table gets the empty digest, which
    never equals an observed 32-byte hash: the case is reported as a mismatch. *)
-From Coq Require Import FMapPositive.
+From Coq Require Import FMapPositive Uint63.
 From Goloop Require Import lib.Bytes Model_RlpBytes Model_Trie.
 Open Scope N_scope.
+
+(* Compact literals for byte strings in the cases files: [bx len ws] is the
+   string of [len] bytes whose big-endian chunks of 7 bytes (the last one
+   shorter) are the 63-bit integers [ws].  (Coq parses primitive integer
+   literals much faster than lists of N literals.) *)
+Fixpoint bits_to_N (n : nat) (w : int) : N :=
+  match n with
+  | O => 0
+  | S n' => (if Uint63.is_zero (Uint63.land w 1%uint63) then 0 else 1) + 2 * bits_to_N n' (Uint63.lsr w 1%uint63)
+  end.
+
+Fixpoint chunk_acc (k : nat) (w : int) (acc : bytes) : bytes :=
+  match k with
+  | O => acc
+  | S k' => chunk_acc k' (Uint63.lsr w 8%uint63) (bits_to_N 8 (Uint63.land w 255%uint63) :: acc)
+  end.
+
+Fixpoint bx (len : nat) (ws : list int) : bytes :=
+  match ws with
+  | [] => []
+  | w :: r => let k := Nat.min len 7 in chunk_acc k w [] ++ bx (len - k) r
+  end.
+Arguments bx len%nat_scope ws%uint63_scope.
 
 Definition enc (b : bytes) : positive :=
   match fold_left (fun acc x => N.shiftl acc 8 + x) b 1 with
